@@ -9,9 +9,9 @@
 
 #include "Point.h"
 
-ezc3d::DataNS::Points3dNS::Point::Point(const std::string &name) :
-    _name(name)
+ezc3d::DataNS::Points3dNS::Point::Point(const std::string &name)
 {
+    this->name(name);
     _data.resize(4);
 }
 
